@@ -33,7 +33,7 @@ MICRO_FILES = [
     [["r", "src", "a.c"], [["Inc", ["Q", ["h.h"]]], ["If", ["Defd", "F0"]], ["Code"], ["Else"], ["Code"], ["Endif"], ["Inc", ["A", ["g.h"]]],
                           ["If", ["Defd", "F1"]], ["Code"], ["Endif"]]],
     [["r", "src", "b.c"], [["If", ["Defd", "F0"]], ["Code"], ["Endif"], ["Code"]]],
-    [["r", "src", "h.h"], [["Once"], ["Def", "F0", "E"], ["Code"]]],
+    [["r", "src", "h.h"], [["Once"], ["Undef", "F0"], ["Def", "F0", "E"], ["Code"]]],
     [["x", "inc1", "g.h"], [["If", ["NDefd", "G"]], ["Def", "G", "E"], ["Def", "F1", "E"], ["Code"], ["Endif"]]],
 ]
 MICRO_CFGS = [
